@@ -148,7 +148,11 @@ extern "C" int harness_main()
 	std::string hname[2], hval[2], hraw[2];
 	for (int h = 0; h < nhdr; ++h)
 	{
+#ifdef SMALL
+		int const nl = 1;
+#else
 		int const nl = PART == 0 ? 1 : 1 + vp_choose(2);
+#endif
 		for (int i = 0; i < nl; ++i) hname[h].push_back(sym_char_in("AaZz-9", 6));
 		int const pre = PART == 0 ? 1 : 2 * vp_choose(2), post = PART == 0 ? 0 : vp_choose(2), vl = PART == 0 ? 1 : 2 * vp_choose(2);
 		hraw[h] = hname[h];
